@@ -63,6 +63,8 @@ def _one(t, tmpdir, k, pattern, outlen, as_path, exhaustive, meta_kind=0, dtype=
     meta = dict(idx=idx, plaintext=pt)
     if meta_kind:
         meta['gain'] = (np.arange(N, dtype='float64') * 0.25 - 3).reshape(N, 1)
+    if meta_kind == 2 or (meta_kind and N > 10):
+        meta['label'] = np.array([f't{(i * 7) % (N + 3)}' if i % 3 else f'trace-number-{i}' for i in range(N)])       # text of varying length
     ths = estraces.read_ths_from_ram(samples=samples, **meta)
     calls = []
 
@@ -171,7 +173,7 @@ def run_case(case):
     try:
         if case['gen'] == 'exh':
             for k, p in enumerate(case['patterns']):
-                _one(t, tmpdir, k, p, case['outlen'], case['as_path'], True, meta_kind=k % 2, pre_check=(1 if k % 4 == 3 else 0))
+                _one(t, tmpdir, k, p, case['outlen'], case['as_path'], True, meta_kind=k % 3, pre_check=(1 if k % 4 == 3 else 0))
             sig = f"exh|{len(case['patterns'][0])}|{case['patterns'][0]}|{case['outlen']}|{case['as_path']}"
         else:
             rng = gen.rng_of(case['sub'])
@@ -192,7 +194,7 @@ def run_case(case):
                     p[-1] = 'n'
                 elif edge == 2:
                     p[0], p[-1] = 'a', 'a'
-                _one(t, tmpdir, k, ''.join(p), int(rng.choice([3, 7, 12, 1])), bool(rng.integers(2)), False, meta_kind=int(rng.integers(2)),
+                _one(t, tmpdir, k, ''.join(p), int(rng.choice([3, 7, 12, 1])), bool(rng.integers(2)), False, meta_kind=int(rng.integers(3)),
                      dtype=['float32', 'float64', 'int16'][int(rng.integers(3))], pre_check=int(rng.choice([0, 0, 1, 2])))
             sig = f"rand|{case['sub']}"
     finally:
